@@ -192,6 +192,13 @@ impl PrettyParseError {
             .map(|(cp, _c)| cp)
             .position(|cp| cp == err.position - target_line.start_offset)
             .unwrap_or(0);
+        #[cfg(peginator_verif)]
+        crate::verif_hooks::observe_pretty_location(
+            target_line.lineno,
+            character_position,
+            target_line.start_offset,
+            target_line.s.len(),
+        );
         let position = if let Some(f) = source_file {
             format!(
                 "{}:{:?}:{:?}",
